@@ -104,6 +104,124 @@ impl Session {
     }
 }
 
+
+// ---------------------------------------------------------------------------------------------
+// Crash isolation: documents are executed in a child process (this same binary, component
+// `reader-child`), so that an abort (allocation failure, stack overflow) of the implementation
+// is observed as an `ABORT` answer of the call that caused it instead of killing the harness.
+// Protocol (child stdin): `JOB <seed> <nops> <stack_kib> <dochex> <pool hex,hex,..|-> <treeflag>` or `REPLAY <stack_kib> <dochex> <op>;<op>;...`
+// (child stdout): `OP <op>` before each call, `OB <observation>` after it, `DONE` at the end of a job.
+use std::io::{BufRead, BufReader, Write};
+
+pub fn child_main() {
+    let stdin = std::io::stdin();
+    for line in stdin.lock().lines() {
+        let line = line.unwrap();
+        let t: Vec<&str> = line.split(' ').collect();
+        match t[0] {
+            "JOB" => {
+                let seed: u64 = t[1].parse().unwrap(); let nops: usize = t[2].parse().unwrap(); let stack: usize = t[3].parse().unwrap();
+                let doc = unhex(t[4]);
+                let pool: Vec<Vec<u8>> = if t[5] == "-" { vec![] } else { t[5].split(',').map(unhex).collect() };
+                let tree = if t[6] == "1" { decode_wire(&doc) } else { None };
+                std::thread::Builder::new().stack_size(stack << 10).spawn(move || {
+                    let mut rng = Rng::new(seed);
+                    gen_history_streaming(&mut rng, &doc, tree.as_ref(), nops, &pool);
+                }).unwrap().join().ok();
+                println!("DONE"); std::io::stdout().flush().unwrap();
+            }
+            "REPLAY" => {
+                let stack: usize = t[1].parse().unwrap(); let doc = unhex(t[2]);
+                let ops: Vec<Op> = t[3..].join(" ").split(';').filter(|x| !x.is_empty()).filter_map(parse_op).collect();
+                std::thread::Builder::new().stack_size(stack << 10).spawn(move || {
+                    let mut s = Session::new(&doc);
+                    for op in &ops { println!("OP {}", op_txt(op)); std::io::stdout().flush().unwrap(); let o = s.exec(op); println!("OB {}", o); std::io::stdout().flush().unwrap(); }
+                }).unwrap().join().ok();
+                println!("DONE"); std::io::stdout().flush().unwrap();
+            }
+            _ => {}
+        }
+    }
+}
+
+pub struct Child { proc: std::process::Child, rd: BufReader<std::process::ChildStdout> }
+impl Child {
+    pub fn spawn() -> Child {
+        let exe = std::env::current_exe().unwrap();
+        // address-space limit: an eager pre-allocation of a huge declared length fails instead of thrashing
+        let mut proc = std::process::Command::new("sh").arg("-c").arg(format!("ulimit -v 8000000; exec {} reader-child", exe.display()))
+            .stdin(std::process::Stdio::piped()).stdout(std::process::Stdio::piped()).stderr(std::process::Stdio::null()).spawn().unwrap();
+        let rd = BufReader::new(proc.stdout.take().unwrap());
+        Child { proc, rd }
+    }
+    /// Send a job line; collect (ops, observations). A dead child yields `ABORT` for the call in flight.
+    pub fn job(&mut self, line: &str) -> (Vec<Op>, Vec<String>, bool) {
+        let mut ops = vec![]; let mut obs = vec![];
+        if writeln!(self.proc.stdin.as_mut().unwrap(), "{}", line).is_err() { return (ops, obs, true); }
+        let _ = self.proc.stdin.as_mut().unwrap().flush();
+        loop {
+            let mut l = String::new();
+            match self.rd.read_line(&mut l) {
+                Ok(0) | Err(_) => { // child died
+                    if ops.len() > obs.len() { obs.push("ABORT".into()); }
+                    let _ = self.proc.wait();
+                    return (ops, obs, true);
+                }
+                Ok(_) => {
+                    let l = l.trim_end();
+                    if l == "DONE" { if ops.len() > obs.len() { obs.push("PANIC".into()); } return (ops, obs, false); }
+                    else if let Some(o) = l.strip_prefix("OP ") { if let Some(op) = parse_op(o) { ops.push(op); } }
+                    else if let Some(o) = l.strip_prefix("OB ") { obs.push(o.to_string()); }
+                }
+            }
+        }
+    }
+}
+
+pub struct Pool { child: Option<Child> }
+impl Pool {
+    pub fn new() -> Pool { Pool { child: None } }
+    pub fn run(&mut self, line: &str) -> (Vec<Op>, Vec<String>) {
+        if self.child.is_none() { self.child = Some(Child::spawn()); }
+        let (ops, obs, dead) = self.child.as_mut().unwrap().job(line);
+        if dead { self.child = None; }
+        (ops, obs)
+    }
+}
+
+/// Minimal decoder of well-formed documents back into `Wire` (only to aim ops in the child).
+pub fn decode_wire(b: &[u8]) -> Option<Wire> {
+    fn val(b: &[u8], p: &mut usize) -> Option<Wire> {
+        let m = *b.get(*p)?; *p += 1;
+        let be = |b: &[u8], p: &mut usize, k: usize| -> Option<u64> { let mut v = 0u64; for _ in 0..k { v = (v << 8) | *b.get(*p)? as u64; *p += 1; } Some(v) };
+        let take = |b: &[u8], p: &mut usize, k: usize| -> Option<Vec<u8>> { let s = b.get(*p..*p + k)?.to_vec(); *p += k; Some(s) };
+        Some(match m {
+            0x00..=0x7f => Wire::Int(IntFmt::PFix, m as i128),
+            0x80..=0x8f => return map(b, p, LenFmt::Fix, (m - 0x80) as usize),
+            0x90..=0x9f => return arr(b, p, LenFmt::Fix, (m - 0x90) as usize),
+            0xa0..=0xbf => Wire::Str(StrFmt::Fix, take(b, p, (m - 0xa0) as usize)?),
+            0xc0 => Wire::Nil, 0xc2 => Wire::Bool(false), 0xc3 => Wire::Bool(true),
+            0xca => Wire::F32(be(b, p, 4)? as u32), 0xcb => Wire::F64(be(b, p, 8)?),
+            0xcc => Wire::Int(IntFmt::U8, be(b, p, 1)? as i128), 0xcd => Wire::Int(IntFmt::U16, be(b, p, 2)? as i128),
+            0xce => Wire::Int(IntFmt::U32, be(b, p, 4)? as i128), 0xcf => Wire::Int(IntFmt::U64, be(b, p, 8)? as i128),
+            0xd0 => Wire::Int(IntFmt::I8, be(b, p, 1)? as u8 as i8 as i128), 0xd1 => Wire::Int(IntFmt::I16, be(b, p, 2)? as u16 as i16 as i128),
+            0xd2 => Wire::Int(IntFmt::I32, be(b, p, 4)? as u32 as i32 as i128), 0xd3 => Wire::Int(IntFmt::I64, be(b, p, 8)? as i64 as i128),
+            0xd9 => { let l = be(b, p, 1)? as usize; Wire::Str(StrFmt::S8, take(b, p, l)?) }
+            0xda => { let l = be(b, p, 2)? as usize; Wire::Str(StrFmt::S16, take(b, p, l)?) }
+            0xdb => { let l = be(b, p, 4)? as usize; Wire::Str(StrFmt::S32, take(b, p, l)?) }
+            0xdc => { let l = be(b, p, 2)? as usize; return arr(b, p, LenFmt::L16, l) }
+            0xdd => { let l = be(b, p, 4)? as usize; return arr(b, p, LenFmt::L32, l) }
+            0xde => { let l = be(b, p, 2)? as usize; return map(b, p, LenFmt::L16, l) }
+            0xdf => { let l = be(b, p, 4)? as usize; return map(b, p, LenFmt::L32, l) }
+            0xe0..=0xff => Wire::Int(IntFmt::NFix, m as i8 as i128),
+            _ => return None,
+        })
+    }
+    fn arr(b: &[u8], p: &mut usize, f: LenFmt, l: usize) -> Option<Wire> { if l > b.len() { return None; } let mut v = vec![]; for _ in 0..l { v.push(val(b, p)?); } Some(Wire::Arr(f, v)) }
+    fn map(b: &[u8], p: &mut usize, f: LenFmt, l: usize) -> Option<Wire> { if l > b.len() { return None; } let mut v = vec![]; for _ in 0..l { let k = val(b, p)?; let x = val(b, p)?; v.push((k, x)); } Some(Wire::Map(f, v)) }
+    let mut p = 0; let w = val(b, &mut p)?; if p == b.len() { Some(w) } else { None }
+}
+
 /// Mirror of a well-formed document, to aim ops.
 fn mirror_step<'a>(w: &'a Wire, op: &Op) -> Option<&'a Wire> {
     match (w, op) {
@@ -118,7 +236,9 @@ fn mirror_step<'a>(w: &'a Wire, op: &Op) -> Option<&'a Wire> {
 pub struct Hist { pub ops: Vec<Op>, pub obs: Vec<String> }
 
 /// Generate and run a history of `n` ops adaptively.
-pub fn gen_history(rng: &mut Rng, doc: &[u8], tree: Option<&Wire>, n: usize, pool: &[Vec<u8>]) -> Hist {
+pub fn gen_history_streaming(rng: &mut Rng, doc: &[u8], tree: Option<&Wire>, n: usize, pool: &[Vec<u8>]) -> Hist { gen_history_impl(rng, doc, tree, n, pool, true) }
+pub fn gen_history(rng: &mut Rng, doc: &[u8], tree: Option<&Wire>, n: usize, pool: &[Vec<u8>]) -> Hist { gen_history_impl(rng, doc, tree, n, pool, false) }
+fn gen_history_impl(rng: &mut Rng, doc: &[u8], tree: Option<&Wire>, n: usize, pool: &[Vec<u8>], stream: bool) -> Hist {
     let mut s = Session::new(doc);
     let mut ops: Vec<Op> = vec![]; let mut obs: Vec<String> = vec![];
     let mut mirror: Vec<Option<&Wire>> = vec![];
@@ -131,9 +251,10 @@ pub fn gen_history(rng: &mut Rng, doc: &[u8], tree: Option<&Wire>, n: usize, poo
         else {
             // sibling-after-half-descent pattern: ask the parent of the latest container for the next index
             let sib = last_container.and_then(|c| parent[c]);
-            let (k, forced_idx) = if sib.is_some() && rng.chance(25) { let (p, i) = sib.unwrap(); (p, Some(i + 1)) }
+            let sib = sib.filter(|(p, i)| obs[*p].split_whitespace().nth(2).and_then(|x| x.parse::<usize>().ok()).map_or(false, |l| i + 1 < l) || rng.chance(10));
+            let (k, forced_idx) = if sib.is_some() && rng.chance(30) { let (p, i) = sib.unwrap(); (p, Some(i + 1)) }
                 else if !containers.is_empty() && rng.chance(75) { (if rng.chance(50) { containers[containers.len() - 1 - rng.below(containers.len().min(3) as u64) as usize] } else { *rng.pick(&containers) }, None) }
-                else if rng.chance(60) && !containers.is_empty() { (*rng.pick(&containers), None) } else { (*rng.pick(&vals), None) };
+                else if rng.chance(75) && !containers.is_empty() { (*rng.pick(&containers), None) } else { (*rng.pick(&vals), None) };
             let sc = if rng.chance(3) { Sc::Garbage } else { Sc::Ans(k) };
             let o = &obs[k];
             let inl: usize = o.split_whitespace().nth(2).and_then(|x| x.parse().ok()).unwrap_or(0);
@@ -153,7 +274,9 @@ pub fn gen_history(rng: &mut Rng, doc: &[u8], tree: Option<&Wire>, n: usize, poo
                 match rng.below(5) { 0 => Op::Idx(sc, rng.below(3) as usize), 1 => Op::Key(sc, 0), 2 => Op::Prop(sc, name(rng, m)), 3 => Op::Len(sc), _ => Op::Str(sc) }
             }
         };
+        if stream { println!("OP {}", op_txt(&op)); std::io::stdout().flush().unwrap(); }
         let o = s.exec(&op);
+        if stream { println!("OB {}", o); std::io::stdout().flush().unwrap(); }
         // bookkeeping
         let (m, p) = match &op {
             Op::Root => (tree, None),
@@ -189,8 +312,11 @@ pub fn emit_case(out: &mut Out, id: usize, class: &str, doc: &[u8], ops: &[Op], 
     for o in obs { out.imp(&format!("{} {}", id, o)); }
 }
 
+fn stack_for(class: &str) -> usize { if class.starts_with("deep1m") { 1024 } else { 65536 } }
+
 pub fn run_replay(f: &str, out: &mut Out) {
     let text = std::fs::read_to_string(f).unwrap();
+    let mut pool = Pool::new();
     let mut id = 0usize; let mut class = String::new(); let mut doc: Vec<u8> = vec![]; let mut ops: Vec<Op> = vec![]; let mut n = 0u64; let mut cases = 0u64;
     for line in text.lines() {
         let t: Vec<&str> = line.split_whitespace().collect();
@@ -198,15 +324,62 @@ pub fn run_replay(f: &str, out: &mut Out) {
             ["CASE", i, _w, c] => { id = i.parse().unwrap(); class = c.to_string(); ops.clear(); doc.clear(); }
             ["DOC", h] => doc = unhex(h),
             ["END"] => {
-                let (d, o, c) = (doc.clone(), ops.clone(), class.clone());
-                let obs = std::thread::Builder::new().stack_size(64 << 20).spawn(move || replay_history(&d, &o)).unwrap().join().unwrap_or_else(|_| vec!["ABORT".into()]);
+                let job = format!("REPLAY {} {} {}", stack_for(&class), hex(&doc), ops.iter().map(op_txt).collect::<Vec<_>>().join(";"));
+                let (_, mut obs) = pool.run(&job);
+                while obs.len() < ops.len() { obs.push("SKIPPED".into()); }
                 n += obs.len() as u64; cases += 1;
-                emit_case(out, id, &c, &doc, &ops, &obs);
+                emit_case(out, id, &class, &doc, &ops, &obs);
             }
             _ => if let Some(op) = parse_op(line) { ops.push(op) },
         }
     }
     out.stat("evaluations", n.into()); out.stat("cases", cases.into());
+}
+
+pub struct Acc {
+    pub evals: u64, pub id: usize,
+    pub distinct: std::collections::BTreeSet<String>,
+    pub opk: std::collections::BTreeMap<String, u64>, pub ansk: std::collections::BTreeMap<String, u64>,
+    pub classes: std::collections::BTreeMap<String, u64>, pub sizes: std::collections::BTreeMap<&'static str, u64>,
+    pub depths: std::collections::BTreeMap<usize, u64>,
+}
+impl Acc {
+    pub fn new() -> Acc { Acc { evals: 0, id: 0, distinct: Default::default(), opk: Default::default(), ansk: Default::default(), classes: Default::default(), sizes: Default::default(), depths: Default::default() } }
+    /// Run one document in the child, record it.
+    pub fn doc(&mut self, out: &mut Out, pool: &mut Pool, r: &mut Rng, class: &str, doc: &[u8], keys: &[Vec<u8>], wf: bool, nops: usize) {
+        let job = format!("JOB {} {} {} {} {} {}", r.next_u64(), nops, stack_for(class), hex(doc),
+                          if keys.is_empty() { "-".to_string() } else { keys.iter().map(|k| hex(k)).collect::<Vec<_>>().join(",") }, if wf { 1 } else { 0 });
+        let (ops, obs) = pool.run(&job);
+        *self.classes.entry(class.to_string()).or_insert(0) += 1;
+        *self.sizes.entry(if doc.len() < 32 { "<32B" } else if doc.len() < 256 { "<256B" } else if doc.len() < 4096 { "<4KiB" } else { ">=4KiB" }).or_insert(0) += 1;
+        for (op, o) in ops.iter().zip(&obs) {
+            *self.opk.entry(op_txt(op).split_whitespace().next().unwrap().to_string()).or_insert(0) += 1;
+            *self.ansk.entry(o.split_whitespace().take(if o.starts_with("VAL") { 2 } else { 1 }).collect::<Vec<_>>().join(" ")).or_insert(0) += 1;
+        }
+        let nontrivial = ops.iter().zip(&obs).any(|(op, o)| !matches!(op, Op::Root | Op::Len(_)) && o.starts_with("VAL") && !o.starts_with("VAL ERR") && !o.starts_with("VAL NULL"));
+        if nontrivial { self.distinct.insert(format!("{}|{}", hex(&doc[..doc.len().min(64)]), ops.iter().map(op_txt).collect::<Vec<_>>().join(";"))); }
+        self.evals += ops.len() as u64;
+        emit_case(out, self.id, class, doc, &ops, &obs);
+        self.id += 1;
+    }
+    pub fn finish(&self, out: &mut Out, rule: &str) {
+        out.stat("cases", self.id.into());
+        out.stat("evaluations", self.evals.into());
+        out.stat("distinct_nontrivial", (self.distinct.len() as u64).into());
+        out.stat("ops", serde_json::to_value(&self.opk).unwrap());
+        out.stat("answers", serde_json::to_value(&self.ansk).unwrap());
+        out.stat("classes", serde_json::to_value(&self.classes).unwrap());
+        out.stat("doc_sizes", serde_json::to_value(&self.sizes).unwrap());
+        out.stat("nesting_depths", serde_json::to_value(&self.depths).unwrap());
+        out.stat("rule", rule.into());
+    }
+}
+
+pub fn wf_doc(r: &mut Rng) -> Wire {
+    let mut budget = *r.pick(&[4isize, 10, 25, 60, 150]); let d = r.range(1, 6) as usize;
+    let dup = r.chance(15);
+    let t = gen_tree(r, d, &mut budget, dup);
+    if matches!(t, Wire::Arr(..) | Wire::Map(..)) || r.chance(10) { t } else { Wire::Arr(LenFmt::Fix, vec![t, gen_scalar(r), Wire::Arr(LenFmt::L16, vec![gen_scalar(r)])]) }
 }
 
 /// C01: well-formed documents.
@@ -215,50 +388,68 @@ pub fn run(a: &Args, out: &mut Out) {
     let thorough = a.tier == "thorough";
     let mut rng = Rng::new(a.seed);
     let ndocs = a.n.unwrap_or(if thorough { 3000 } else { 300 }) as usize;
-    // quick: every string size, arrays of 255/256/2^14-1/2^14+1, maps of 255/256 (the model is list-based, hence quadratic on huge containers)
+    // quick: every string size, arrays of 255/256, maps of 255/256 (the model is list-based, hence quadratic on huge containers)
     let quick_big: [usize; 15] = [0, 1, 2, 3, 4, 5, 6, 7, 8, 9, 10, 11, 12, 22, 23];
     let nbig = if thorough { 33 } else { quick_big.len() };
-    let mut evals = 0u64; let mut id = 0usize;
-    let mut distinct = std::collections::BTreeSet::<String>::new();
-    let mut opk = std::collections::BTreeMap::<String, u64>::new();
-    let mut ansk = std::collections::BTreeMap::<String, u64>::new();
-    let mut depths = std::collections::BTreeMap::<usize, u64>::new();
-    let mut sizes = std::collections::BTreeMap::<&str, u64>::new();
-    if let Some(c) = &a.corpus { if std::path::Path::new(c).exists() { run_replay(c, out); id = 100000; } }
+    let mut acc = Acc::new(); let mut pool = Pool::new();
+    if let Some(c) = &a.corpus { if std::path::Path::new(c).exists() { run_replay(c, out); acc.id = 100000; } }
     for i in 0..ndocs + nbig {
         let mut r = rng.fork(i as u64);
         let big = i >= ndocs;
         let bigsel = if thorough { i.saturating_sub(ndocs) } else { quick_big[i.saturating_sub(ndocs) % quick_big.len()] };
-        let tree = if big { gen_big(&mut r, bigsel) } else {
-            let mut budget = *r.pick(&[4isize, 10, 25, 60, 150]); let d = r.range(1, 6) as usize;
-            let dup = r.chance(15);
-            let t = gen_tree(&mut r, d, &mut budget, dup);
-            // force a container at the root most of the time
-            if matches!(t, Wire::Arr(..) | Wire::Map(..)) || r.chance(10) { t } else { Wire::Arr(LenFmt::Fix, vec![t, gen_scalar(&mut r), Wire::Arr(LenFmt::L16, vec![gen_scalar(&mut r)])]) } };
+        let tree = if big { gen_big(&mut r, bigsel) } else { wf_doc(&mut r) };
         let doc = tree.bytes();
-        let mut pool = vec![]; collect_keys(&tree, &mut pool);
+        let mut keys = vec![]; collect_keys(&tree, &mut keys);
+        *acc.depths.entry(tree.depth()).or_insert(0) += 1;
         let nops = if big { 30 } else { r.range(20, 60) as usize };
-        let (t2, d2, p2, mut r2) = (tree.clone(), doc.clone(), pool.clone(), r.clone());
-        let h = std::thread::Builder::new().stack_size(64 << 20).spawn(move || gen_history(&mut r2, &d2, Some(&t2), nops, &p2)).unwrap().join().unwrap();
-        *depths.entry(tree.depth()).or_insert(0) += 1;
-        *sizes.entry(if doc.len() < 32 { "<32B" } else if doc.len() < 256 { "<256B" } else if doc.len() < 4096 { "<4KiB" } else { ">=4KiB" }).or_insert(0) += 1;
-        for (op, o) in h.ops.iter().zip(&h.obs) {
-            *opk.entry(op_txt(op).split_whitespace().next().unwrap().to_string()).or_insert(0) += 1;
-            *ansk.entry(o.split_whitespace().take(if o.starts_with("VAL") { 2 } else { 1 }).collect::<Vec<_>>().join(" ")).or_insert(0) += 1;
-        }
-        // non-trivial: reaches a non-error value below the root through a container op
-        let nontrivial = h.ops.iter().zip(&h.obs).any(|(op, o)| !matches!(op, Op::Root | Op::Len(_)) && o.starts_with("VAL") && !o.starts_with("VAL ERR") && !o.starts_with("VAL NULL"));
-        if nontrivial { distinct.insert(format!("{}|{}", hex(&doc[..doc.len().min(64)]), h.ops.iter().map(op_txt).collect::<Vec<_>>().join(";"))); }
-        evals += h.ops.len() as u64;
-        emit_case(out, id, if big { "big" } else { "wf" }, &doc, &h.ops, &h.obs);
-        id += 1;
+        acc.doc(out, &mut pool, &mut r, if big { "big" } else { "wf" }, &doc, &keys, true, nops);
     }
-    out.stat("cases", id.into());
-    out.stat("evaluations", evals.into());
-    out.stat("distinct_nontrivial", (distinct.len() as u64).into());
-    out.stat("ops", serde_json::to_value(&opk).unwrap());
-    out.stat("answers", serde_json::to_value(&ansk).unwrap());
-    out.stat("nesting_depths", serde_json::to_value(&depths).unwrap());
-    out.stat("doc_sizes", serde_json::to_value(&sizes).unwrap());
-    out.stat("rule", "random well-formed documents (depth<=6, fan-out from {0,1,2,3,4,5,15,16,17,31,32}, every int/float/str/array/map format incl. non-minimal headers, 15% with duplicate keys) plus documents with strings/arrays/maps of 255/256, 2^14-3..2^14+2, 65535/65536/70000 elements; per document 20-60 read calls chosen adaptively among ALL handles obtained so far (sibling after half-descended child, revisits, by-name/by-interned-id/by-index/key-at-index/len/string bytes, ~12% out-of-range or wrong-kind scopes, 3% undecodable scope, root re-fetched); non-trivial = some call reached a non-error value below the root; distinct = distinct (document prefix, op list)".into());
+    acc.finish(out, "random well-formed documents (depth<=6, fan-out from {0,1,2,3,4,5,15,16,17,31,32}, every int/float/str/array/map format incl. non-minimal headers, 15% with duplicate keys) plus documents with strings of 255/256, 2^14-3..2^14+2, 65535/65536/70000 bytes and arrays/maps of 255/256 (thorough: also 2^14-3..2^14+2) elements; per document 20-60 read calls chosen adaptively among ALL handles obtained so far (sibling after half-descended child, revisits, by-name/by-interned-id/by-index/key-at-index/len/string bytes, out-of-range or wrong-kind scopes, 3% undecodable scope, root re-fetched); each document runs in a child process so an abort is an observation; non-trivial = some call reached a non-error value below the root; distinct = distinct (document prefix, op list)");
+}
+
+/// C08: arbitrary / malformed input bytes.
+pub fn run_c08(a: &Args, out: &mut Out) {
+    if let Some(f) = &a.replay { return run_replay(f, out); }
+    let thorough = a.tier == "thorough";
+    let mut rng = Rng::new(a.seed);
+    let n = a.n.unwrap_or(if thorough { 6000 } else { 500 }) as usize;
+    let mut acc = Acc::new(); let mut pool = Pool::new();
+    if let Some(c) = &a.corpus { if std::path::Path::new(c).exists() { run_replay(c, out); acc.id = 100000; } }
+    let keypool: Vec<Vec<u8>> = vec![b"k0".to_vec(), b"k1".to_vec(), b"k2".to_vec(), b"a".to_vec(), b"k".to_vec(), b"".to_vec()];
+    for i in 0..n {
+        let mut r = rng.fork(i as u64);
+        let base = wf_doc(&mut r); let other = wf_doc(&mut r);
+        let mut keys = keypool.clone(); collect_keys(&base, &mut keys);
+        let (class, doc): (&str, Vec<u8>) = match r.below(20) {
+            0 => { // non-string key
+                let w = Wire::Map(LenFmt::Fix, vec![(Wire::Str(StrFmt::Fix, b"k0".to_vec()), gen_scalar(&mut r)), (gen_int(&mut r), gen_scalar(&mut r)), (Wire::Str(StrFmt::Fix, b"k2".to_vec()), Wire::Nil)]);
+                ("nonstring-key", Wire::Arr(LenFmt::Fix, vec![w, Wire::Nil]).bytes()) }
+            1 => { // NaN floats, at the root or nested
+                let nan = if r.chance(50) { Wire::F64(*r.pick(&[0x7ff8000000000000u64, 0xfff8000000000001, 0x7ff0000000000001, 0x7fffffffffffffff])) } else { Wire::F32(*r.pick(&[0x7fc00000u32, 0xffc00001, 0x7f800001])) };
+                ("nan", if r.chance(30) { nan.bytes() } else { Wire::Arr(LenFmt::Fix, vec![Wire::Int(IntFmt::PFix, 1), nan.clone(), Wire::Map(LenFmt::Fix, vec![(Wire::Str(StrFmt::Fix, b"k0".to_vec()), nan)])]).bytes() }) }
+            2 => { // string extent beyond the input
+                let mut d = Wire::Arr(LenFmt::Fix, vec![Wire::Map(LenFmt::Fix, vec![(Wire::Str(StrFmt::S8, b"k0".to_vec()), Wire::Str(StrFmt::S8, b"abc".to_vec()))]), Wire::Nil]).bytes();
+                let f = len_fields(&d); let strs: Vec<_> = f.iter().filter(|x| x.1 == 1).collect(); let (pos, _, _, rem) = **r.pick(&strs); d[pos] = (rem + 1 + r.below(100) as usize).min(255) as u8;
+                ("str-extent", d) }
+            3 => { let depth = *r.pick(&[1usize, 10, 100, 1000, 5000, 10000]); let mut d = vec![0x92]; d.extend(std::iter::repeat(0x91).take(depth)); d.push(0xc0); d.push(0xc0); ("deep", d) }
+            4 => ("valid", base.bytes()),
+            _ => { let (c, d) = mutate(&mut r, &base.bytes(), &other.bytes()); (c, d) }
+        };
+        let nops = r.range(10, 40) as usize;
+        acc.doc(out, &mut pool, &mut r, class, &doc, &keys, false, nops);
+    }
+    // classes that make the unrepaired implementation abort the process (recorded findings F3, F11); a handful each
+    for (k, d) in [("hugelen", vec![0xddu8, 0xff, 0xff, 0xff, 0xff]), ("hugelen", vec![0xdf, 0xff, 0xff, 0xff, 0xff]), ("hugelen", vec![0x92, 0xdd, 0x7f, 0xff, 0xff, 0xff, 0xc0])] {
+        let mut r = rng.fork(900_000 + acc.id as u64);
+        acc.doc(out, &mut pool, &mut r, k, &d, &keypool, false, 4);
+    }
+    { // nesting 6000 on a 1 MiB stack (the default wasm stack): finish_processing recurses once per level
+        let mut d = vec![0x92u8]; d.extend(std::iter::repeat(0x91).take(6000)); d.push(0xc0); d.push(0xc0);
+        let job = format!("REPLAY {} {} {}", 1024, hex(&d), "ROOT;IDX 0 1");
+        let (ops, mut obs) = pool.run(&job);
+        while obs.len() < ops.len() { obs.push("SKIPPED".into()); }
+        acc.evals += ops.len() as u64; *acc.classes.entry("deep1m".into()).or_insert(0) += 1;
+        emit_case(out, acc.id, "deep1m", &d, &ops, &obs); acc.id += 1;
+    }
+    acc.finish(out, "malformed inputs: every class of {truncation, bit flip, byte overwrite, length-field tamper (0, true+-1, remaining, remaining+1, 65535, 2^20), splice of two documents, unsupported marker (0xc1, bin, ext, fixext), trailing bytes, non-string key, NaN float (f32/f64, root/nested), string extent beyond the input, nesting 1..10^4, short random byte strings biased to container markers} of random valid documents, 5% valid; per input 10-40 adaptive read calls as in C01; three huge-declared-length inputs and one 6000-deep input on a 1 MiB stack exercise the recorded findings; each input runs in a child process with an 8 GB address-space limit so aborts are observations; non-trivial = some call reached a non-error value below the root");
 }
